@@ -131,8 +131,12 @@ def learnOpenmpSeq32 (alpha β₁ β₂ lam : R) (nCues : Nat) (files : List (Li
       the chunk files — with no chunk file it is not reached (then `ndlCall`
       raises `IOError`).
     The parts of the OpenMP method are computed in `unsigned int` arithmetic
-    (`ompParts32`); they are the unbounded ones when
-    `n_outcomes + n_outcomes_per_job < 2³²` (`ompParts32_eq`). -/
+    (`ompParts32`); they are the unbounded ones exactly when
+    `⌈n_outcomes / n_outcomes_per_job⌉ · n_outcomes_per_job < 2³²`
+    (`ompParts32_eq_nowrap`; in particular when `n_outcomes + n_outcomes_per_job
+    ≤ 2³²`, `ompParts32_eq`).  Otherwise the last part's `end_val` wraps below its
+    `start_val`: an empty range, its rows are NOT trained and nothing is raised
+    (`ompBounds32_wraps_example`) — the model reproduces this. -/
 def ndlCore (magic version : Nat) (cfg : NdlCfg) (alpha β₁ β₂ lam : R) (cues outs : List String)
     (vals : Array R) (es : List (Event String String)) : Except Err (LW R × Nat) :=
   if cfg.perFile < 2 then .error .value else
@@ -159,7 +163,13 @@ def ndlCore (magic version : Nat) (cfg : NdlCfg) (alpha β₁ β₂ lam : R) (cu
     values by zeros (ndl.py:173-198); then `ndlCore`.
     `weights=` with duplicate labels is outside the model: `idxOf` gives a name
     its FIRST position, Python's `OrderedDict((name, ii) …)` the LAST; the
-    theorems about continued learning carry `Nodup` on the given labels. -/
+    theorems about continued learning carry `Nodup` on the given labels.
+    Events with an EMPTY cue or outcome list are outside the model as well (an
+    event file presents them with the name `""`): the theorems carry
+    `FileEvents es`, or are about `ndlCallFile` (below).  The new names are
+    appended in first-occurrence order (the code: `list(set(cues) - set(old))`,
+    hash order); any order gives the same weights read through the labels:
+    `ndlModelContWith_order_irrelevant` (PyndlProofs/LabelOrder.lean). -/
 def ndlModel (magic version : Nat) (cfg : NdlCfg) (alpha β₁ β₂ lam : R) (W0 : Option (LW R))
     (es : List (Event String String)) : Except Err (LW R × Nat) :=
   let (cuesNew, outsNew) := countNames es
@@ -180,7 +190,12 @@ def ndlModel (magic version : Nat) (cfg : NdlCfg) (alpha β₁ β₂ lam : R) (W
     Threading: it is called once per work item, i.e. iff the (merged) outcome
     list is non-empty (ndl.py worker loop) — which needs `weights=` with at
     least one outcome.  Argument checks and the conversion come first.  For a
-    non-empty event list this is `ndlModel` (`ndlCall_nonempty`). -/
+    non-empty event list this is `ndlModel` (`ndlCall_nonempty`).  That this rule
+    is what the entry points (`learnChunksB2B`, one call per `slice_list` part
+    resp. one OpenMP call) give on an empty file list is a theorem:
+    `ndlCallEntry_nil` (PyndlProofs/NdlEntry.lean; C01 `ndl_zero_events_rule`).
+    `es` must be what an event file can hold (`FileEvents`); for arbitrary
+    generator contents the call is `ndlCallFile`. -/
 def ndlCall (magic version : Nat) (cfg : NdlCfg) (alpha β₁ β₂ lam : R) (W0 : Option (LW R))
     (es : List (Event String String)) : Except Err (LW R × Nat) :=
   match ndlModel magic version cfg alpha β₁ β₂ lam W0 es with
@@ -191,6 +206,50 @@ def ndlCall (magic version : Nat) (cfg : NdlCfg) (alpha β₁ β₂ lam : R) (W0
       | .openmp => .error .io
       | .threading => if w.outcomes.isEmpty then .ok (w, n) else .error .io
     else .ok (w, n)
+
+end
+
+/-! ## events as an event FILE presents them
+
+`ndl.ndl` never sees an event list: it gets a path, or a generator which it
+spools into `events.tab.gz` first (ndl.py:133-145), and every stage
+(`count.cues_outcomes`, `create_binary_event_files`) reads the file with
+`io.events_from_file`: `cues.split('_')`, `outcomes.split('_')`.  An EMPTY field
+comes back as `''.split('_') = ['']` — the one name `""` — on either side, so the
+code can never receive an event with no cue or no outcome (C07
+`parse_render_general`: the round trip is `normaliseAll`; this is its `String`
+version; names with `_`, TAB, LF are outside C07's domain and not touched here). -/
+
+/-- one side of an event as the text format presents it: `"_".join([]) = ""`
+    reads back as `[""]`; every non-empty list is unchanged -/
+def fileNormList : List String → List String
+  | [] => [""]
+  | xs => xs
+
+/-- an event as the text event format presents it (harness/gen.py `file_norm`,
+    harness/textgen.py `file_norm`) -/
+def fileNorm (e : Event String String) : Event String String :=
+  ⟨fileNormList e.cues, fileNormList e.outcomes⟩
+
+/-- the event lists an event file can hold: every event has at least one cue and
+    at least one outcome (possibly the name `""`) — the hypothesis of every
+    statement about `ndlModel` / `ndlCall` applied to an event list directly -/
+def FileEvents (es : List (Event String String)) : Prop :=
+  ∀ e ∈ es, e.cues ≠ [] ∧ e.outcomes ≠ []
+
+instance (es : List (Event String String)) : Decidable (FileEvents es) := by
+  unfold FileEvents; infer_instance
+
+section
+variable {R : Type} [Add R] [Sub R] [Mul R] [Zero R]
+
+/-- **`ndl.ndl(events=<path or generator of the events es>)`**: the call on what the
+    event file presents, `es.map fileNorm`.  This is the function of an ARBITRARY
+    event list the real call computes; `ndlCall` itself is the call only on
+    `FileEvents` (`ndlCallFile_of_fileEvents`). -/
+def ndlCallFile (magic version : Nat) (cfg : NdlCfg) (alpha β₁ β₂ lam : R) (W0 : Option (LW R))
+    (es : List (Event String String)) : Except Err (LW R × Nat) :=
+  ndlCall magic version cfg alpha β₁ β₂ lam W0 (es.map fileNorm)
 
 end
 
